@@ -17,11 +17,87 @@ func typeName(t types.Type) string {
 	}
 	if n, ok := t.(*types.Named); ok {
 		if n.Obj().Pkg() != nil {
-			return n.Obj().Pkg().Name() + "." + n.Obj().Name()
+			name := n.Obj().Pkg().Name() + "." + n.Obj().Name()
+			if c, ok := canonType[name]; ok {
+				return c
+			}
+			return name
 		}
 		return n.Obj().Name()
 	}
 	return ""
+}
+
+// The payload structs of the heap protocol are recognised by shape, so that renaming them or
+// their (unexported) fields does not move a rule: (<-chan struct{}, chan<- *Bar, chan<- *Bar)
+// is the iteration request, (*Bar, int, bool) the fix request, (*Bar, bool) the push request.
+// canonType maps the actual type name to the name the rules use, canonField gives the rule
+// names of the fields by index.
+var (
+	canonType  = map[string]string{}
+	canonField = map[string][]string{}
+)
+
+func registerPayloadShapes(pkg *ssa.Package) {
+	canonType = map[string]string{}
+	canonField = map[string][]string{}
+	isBarPtr := func(t types.Type) bool {
+		p, ok := t.(*types.Pointer)
+		if !ok {
+			return false
+		}
+		n, ok := p.Elem().(*types.Named)
+		return ok && n.Obj().Name() == "Bar"
+	}
+	chanOf := func(t types.Type, dir types.ChanDir, elemBar bool) bool {
+		c, ok := t.Underlying().(*types.Chan)
+		if !ok || c.Dir() != dir {
+			return false
+		}
+		if elemBar {
+			return isBarPtr(c.Elem())
+		}
+		st, ok := c.Elem().Underlying().(*types.Struct)
+		return ok && st.NumFields() == 0
+	}
+	basic := func(t types.Type, k types.BasicKind) bool {
+		b, ok := t.Underlying().(*types.Basic)
+		return ok && b.Kind() == k
+	}
+	for _, m := range pkg.Members {
+		tm, ok := m.(*ssa.Type)
+		if !ok {
+			continue
+		}
+		n, ok := tm.Type().(*types.Named)
+		if !ok {
+			continue
+		}
+		st, ok := n.Underlying().(*types.Struct)
+		if !ok {
+			continue
+		}
+		actual := n.Obj().Pkg().Name() + "." + n.Obj().Name()
+		f := func(i int) types.Type { return st.Field(i).Type() }
+		switch {
+		case st.NumFields() == 3 && chanOf(f(0), types.RecvOnly, false) && chanOf(f(1), types.SendOnly, true) && chanOf(f(2), types.SendOnly, true):
+			canonType[actual] = "mpb.iterData"
+			canonField["mpb.iterData"] = []string{"drop", "iter", "iterPop"}
+		case st.NumFields() == 3 && isBarPtr(f(0)) && basic(f(1), types.Int) && basic(f(2), types.Bool):
+			canonType[actual] = "mpb.fixData"
+			canonField["mpb.fixData"] = []string{"bar", "priority", "lazy"}
+		case st.NumFields() == 2 && isBarPtr(f(0)) && basic(f(1), types.Bool):
+			canonType[actual] = "mpb.pushData"
+			canonField["mpb.pushData"] = []string{"bar", "sync"}
+		}
+	}
+}
+
+func canonFieldName(owner string, st *types.Struct, idx int) string {
+	if names, ok := canonField[owner]; ok && idx < len(names) {
+		return names[idx]
+	}
+	return st.Field(idx).Name()
 }
 
 func structOf(t types.Type) *types.Struct {
@@ -55,13 +131,15 @@ func fieldOf(v ssa.Value) (fieldRef, bool) {
 		if st == nil {
 			return fieldRef{}, false
 		}
-		return fieldRef{Owner: typeName(x.X.Type()), Name: st.Field(x.Field).Name(), Base: x.X}, true
+		o := typeName(x.X.Type())
+		return fieldRef{Owner: o, Name: canonFieldName(o, st, x.Field), Base: x.X}, true
 	case *ssa.Field:
 		st := structOf(x.X.Type())
 		if st == nil {
 			return fieldRef{}, false
 		}
-		return fieldRef{Owner: typeName(x.X.Type()), Name: st.Field(x.Field).Name(), Base: x.X}, true
+		o := typeName(x.X.Type())
+		return fieldRef{Owner: o, Name: canonFieldName(o, st, x.Field), Base: x.X}, true
 	}
 	return fieldRef{}, false
 }
